@@ -50,23 +50,23 @@ let rec stmt = function
   | x -> failwith ("rp: bad stmt " ^ to_string x)
 
 type rpcase = {
-  strict : bool; na : bool; twin : bool; onpanic : hop list option; onerror : hop list option;
+  strict : bool; na : bool; twin : bool; cache : int option; onpanic : hop list option; onerror : hop list option;
   stmts : stmt list; hs : (int * hop list) list;
   reqs : (n list * n list * nat list) list;   (* method, path, script *)
 }
 
 let parse_case = function
   | L [A "rp"; L opts; L ss; L hs; L reqs] ->
-    let strict = ref false and na = ref false and twin = ref false and onp = ref None and one = ref None in
+    let strict = ref false and na = ref false and twin = ref false and onp = ref None and one = ref None and cache = ref None in
     List.iter (function
         | L [A "na"] -> na := true
         | L [A "strict"] -> strict := true
         | L [A "twin"] -> twin := true
-        | L [A "cache"; _] -> ()
+        | L [A "cache"; n] -> cache := Some (int n)
         | L [A "onpanic"; L ops] -> onp := Some (List.map hop ops)
         | L [A "onerror"; L ops] -> one := Some (List.map hop ops)
         | x -> failwith ("rp: bad option " ^ to_string x)) opts;
-    { strict = !strict; na = !na; twin = !twin; onpanic = !onp; onerror = !one;
+    { strict = !strict; na = !na; twin = !twin; cache = !cache; onpanic = !onp; onerror = !one;
       stmts = List.map stmt ss;
       hs = List.map (function L [id; L ops] -> (int id, List.map hop ops) | x -> failwith ("rp: bad handler " ^ to_string x)) hs;
       reqs = List.map (function L [m; p; L sc] -> (str m, str p, List.map nat sc) | x -> failwith ("rp: bad req " ^ to_string x)) reqs }
@@ -109,24 +109,25 @@ let resolve c (routes : rroute list) m p =
        | [] -> RNotFound
        | al -> RNotAllowed al)
 
-(* returns (reg observation, per-request observations) or None when registration panics *)
+(* returns (reg observation, per-request observations) or None when registration panics.
+   The router is Sys.sys_build (registration program -> route table), every request is Sys.sys_serve (QuickMatch on the
+   table, with the route cache when enabled, then the dispatcher) - both extracted; this function only threads the pooled
+   context and the router state through the requests and prints. *)
 let run_model (c : rpcase) =
-  match exec_block c.strict c.stmts rinit with
-  | Panic -> None
-  | Ok st ->
-    (* route matching proper is the rt executor's business: dynamic patterns are outside this model *)
-    if List.exists (fun r -> List.exists (fun ch -> let x = int_of_n ch in x = 123 || x = 91) r.r_path) st.r_routes then raise Unsupported;
+  let o = { o_strict = c.strict; o_na = c.na; o_fallback = false;
+            o_caching = (c.cache <> None); o_cap = nat_of_int (match c.cache with Some n -> n | None -> 1000); o_intercept = [] } in
+  match exec_block c.strict c.stmts rinit, sys_build o c.stmts with
+  | Panic, _ | _, Panic -> None
+  | Ok st, Ok s0 ->
+    if List.exists (fun r -> match r.rt_kind with KDyn (_, _, CUnsup, _) -> true | _ -> false) s0.s_rt.routes then raise Unsupported;
     let reg = L (A "reg" :: List.map (fun r -> L [A "route"; sstr r.r_path; sint (List.length r.r_handlers)]) st.r_routes
                  @ [L [A "scope"; sstr st.g_prefix; sint (List.length st.g_handlers); sint (List.length st.r_globals)]]) in
-    let cfg = { globals = List.map (prog_of c) st.r_globals; on_panic = c.onpanic; on_error = c.onerror } in
-    let pooled = ref fresh_ctx in
-    let serve_all thread = List.map (fun (m, _p, sc) ->
-        let target = match resolve c st.r_routes m _p with
-          | RRoute r -> TRoute (List.map (prog_of c) r.r_handlers, prog_of c r.r_main, [], r.r_name, _p)
-          | RNotFound -> TNotFound (List.map (prog_of c) st.r_noroute)
-          | RNotAllowed ms -> TNotAllowed (ms, List.map (prog_of c) st.r_noallowed) in
-        let x0 = (ctx_init sc !pooled).p_x in
-        let out = handle_request cfg (str_eqb m options_m) target x0 in
+    let progs id = prog_of c id and hooks = (c.onpanic, c.onerror) in
+    let sys = ref s0 and pooled = ref fresh_ctx in
+    let serve_all thread = List.map (fun (m, p, sc) ->
+        let (out, s') = if thread then sys_serve progs hooks !sys m p sc !pooled else sys_serve progs hooks s0 m p sc fresh_ctx in
+        if thread then sys := s';
+        let out = match out with Some o -> o | None -> raise Unsupported in
         let (x, esc) = match out with
           | Done (x, _) -> (Some x, A "none")
           | Escaped (p, x, _) -> (Some x, spval p)
@@ -138,7 +139,7 @@ let run_model (c : rpcase) =
         | Some x -> L [A "req"; L (A "trace" :: List.map stev x.trace); L (A "log" :: List.map swev x.w.log); L [A "esc"; esc]]
         | None -> L [A "req"; L [A "trace"]; L [A "log"]; L [A "esc"; esc]]) c.reqs in
     let reqs = serve_all true in
-    let fresh = (pooled := fresh_ctx; serve_all false) in
+    let fresh = serve_all false in
     Some (reg, L (A "reqs" :: reqs), L (A "fresh" :: fresh), st)
 
 let model c =
